@@ -14,6 +14,11 @@ DECLARED_PROP_STATE = {"Nref", "dt"}
 
 
 # ---------------------------------------------------------------------------------------------------
+class Stub15:
+    def __init__(self, **kw):
+        self.__dict__.update(kw)
+
+
 def _paths(stmts):
     """all execution paths through `stmts` as (sequence of bracket events, terminated?)"""
     paths = [([], False)]
@@ -311,10 +316,13 @@ def run(ck):
         plan = [("tensor", focus, True), ("tensor", focus, False), ("prop",), ("prop",), ("proptd", 0), ("proptd", 1), ("proptd", 0)]
         dk = "Gaussian" if s % 3 != 2 else "Lorentzian"
         plan += [("propdeph", dk, 0), ("propdeph", dk, 1), ("esodeph", dk)]
+        plan.append(("refused", s % 2 == 0))
+        if s % 2 == 1:
+            plan += [("pop",), ("popmat", s % 3), ("pop",), ("popmat", -1), ("popmat", (s + 1) % 3), ("pop",)]
         if s % 2 == 0:
             plan.append(("heom",))
         while len(plan) < ncalls:
-            o = rng.choice(["tensor", "tensor", "prop", "prop", "prop", "setref", "heom", "sv", "pop", "eso", "proptd", "propdeph", "esodeph"])
+            o = rng.choice(["tensor", "tensor", "prop", "prop", "prop", "setref", "heom", "sv", "pop", "popmat", "eso", "proptd", "propdeph", "esodeph"])
             if o == "tensor":
                 plan.append((o, rng.choice(TKEYS), rng.random() < 0.5))
             elif o == "proptd":
@@ -323,6 +331,8 @@ def run(ck):
                 plan.append((o, dk, rng.randrange(2)))
             elif o == "esodeph":
                 plan.append((o, dk))
+            elif o == "popmat":
+                plan.append((o, rng.choice([-1, 0, 1, 2])))
             else:
                 plan.append((o,))
         rest = plan[1:]
@@ -345,6 +355,16 @@ def run(ck):
                     line = "tensor %d" % names.index(tk[2]) if tk[2] in names else None
                     if line is None and facts is not None:
                         ck.tie_fail("branch %s of get_RelaxationTensor not found in the extracted table" % tk[2])
+                elif op == "refused":
+                    # a request the library refuses (cut-off time beyond the bath axis); the caller catches the refusal and goes on
+                    rec.update(time_dependent=bool(plan[ic][1]), request="standard_Redfield with relaxation_cutoff_time beyond the time axis")
+                    try:
+                        with quiet():
+                            agg.get_RelaxationTensor(ta, relaxation_theory="standard_Redfield", relaxation_cutoff_time=10.0 * float(ta.max),
+                                                     time_dependent=bool(plan[ic][1]))
+                        rec["status"] = "not-refused"
+                    except Exception as e_:
+                        rec["status"] = "refused: %r" % (e_,)
                 elif op in ("prop", "setref"):
                     if main_key is None:
                         ti = [k for k in sorted(tensors, key=repr) if not dict(k[1]).get("time_dependent")]
@@ -484,12 +504,29 @@ def run(ck):
                     res = numpy.array(props["sv"].propagate(psi0).data).ravel()
                     key = ("sv",)
                     line = "pure 0"
-                elif op == "pop":
+                elif op in ("pop", "popmat"):
                     if "pop" not in props:
-                        props["pop"] = PopulationPropagator(ta, RedfieldRateMatrix(ham, sbi))
-                    pini = numpy.real(numpy.diag(r0)).copy()
-                    res = numpy.array(props["pop"].propagate(pini)).ravel()
-                    key = ("pop",)
+                        # the rate matrix is an input of the population propagator: one as an object, one as a plain float64 array
+                        from quantarhei.qm.liouvillespace.rates.ratematrix import RateMatrix
+                        rmo = RateMatrix(data=numpy.array(RedfieldRateMatrix(ham, sbi).data, dtype=numpy.float64).copy())
+                        inputs["ratematrix"] = rmo
+                        inputs["ratearray"] = Stub15(data=numpy.array(rmo.data, dtype=numpy.float64).copy())
+                        base.update(snapshot({"ratematrix": rmo, "ratearray": inputs["ratearray"]}))
+                        props["pop"] = PopulationPropagator(ta, rmo)
+                        props["pop-array"] = PopulationPropagator(ta, inputs["ratearray"].data)
+                    which = "pop" if (ic % 2 == 0) else "pop-array"
+                    rec["rate_matrix_given_as"] = "RateMatrix object" if which == "pop" else "float64 array"
+                    if op == "pop":
+                        pini = numpy.real(numpy.diag(r0)).copy()
+                        res = numpy.array(props[which].propagate(pini)).ravel()
+                        key = ("pop", which)
+                    else:
+                        corr = plan[ic][1]
+                        rec["corrections"] = corr
+                        tsub = TimeAxis(0.0, 4, 5.0)
+                        out_ = props[which].get_PropagationMatrix(tsub, corrections=corr) if corr >= 0 else props[which].get_PropagationMatrix(tsub)
+                        res = numpy.array(out_[0] if corr >= 0 else out_).ravel()
+                        key = ("popmat", which)
                     line = "pure 1"
                 elif op == "eso":
                     tk0 = ("standard_Redfield", ())
